@@ -40,6 +40,15 @@ def builtinSub (name : String) (args : List Val) : Option Val :=
       some (.bv 32 (BitVec.ofNat 32 ((x / 2 ^ 16) * 2 ^ 16 + revBits 16 (x % 2 ^ 16))))
   | _, _ => none
 
+/-- C-side meaning of the void sub-routines, on converted arguments.  `set_usr_field(bundle, FIELD, v)` is read at
+    the level of its specification (`ILSem.lean`, `writeUsr`): the 32-bit value goes to the abstract cell of the field;
+    `trap(type, imm)` has no observable effect (its bundled body computes an unused local). -/
+def voidCallC (name : String) (exts : List String) (vs : List Val) (σ : MState) : Except Stuck MState :=
+  match name, exts, vs with
+  | "set_usr_field", [_, fld], [v] => writeUsr σ fld v
+  | "trap", [], [_, _] => .ok σ
+  | _, _, _ => .error (.undef name)
+
 mutual
 /-- Effectful expression evaluation (fuel bounds calls into generated routines). -/
 def evalCH (ms : MacroSem) (subs : CSubEnv) : Nat → MState → CExpr → Except Stuck (Val × MState)
@@ -161,6 +170,11 @@ def evalCH (ms : MacroSem) (subs : CSubEnv) : Nat → MState → CExpr → Excep
         let (x, σ) ← evalCH ms subs fuel σ e
         let x ← convC (typeOfC e) t x
         .ok (x, { σ with locals := setLocal σ.locals v x })
+    | .seqexpr name exts args params val => do
+        -- the call statement (arguments converted to the parameter types, left to right), then the value
+        let (vs, σ) ← evalCHArgs ms subs fuel σ args params
+        let σ ← voidCallC name exts vs σ
+        evalCH ms subs fuel σ val
 def evalCHArgs (ms : MacroSem) (subs : CSubEnv) : Nat → MState → List CExpr → List CT → Except Stuck (List Val × MState)
   | 0, _, _, _ => .error .fuel
   | _+1, σ, [], _ => .ok ([], σ)
@@ -222,6 +236,9 @@ def execCH (ms : MacroSem) (subs : CSubEnv) : Nat → CStmt → MState → Excep
     | .ret e => do
         let (v, σ) ← evalCH ms subs fuel σ e
         .ok { σ with locals := setLocal σ.locals "$ret" v }
+    | .vcall name exts args params => do
+        let (vs, σ) ← evalCHArgs ms subs fuel σ args params
+        voidCallC name exts vs σ
     | .skip w =>
         if w == "STORE_SLOT_CANCELLED(pkt, slot);" then
           .ok { σ with locals := setLocal σ.locals "$slot_cancelled" (.bool true) }
